@@ -28,24 +28,12 @@ def gen_key():
     facts = {}
     kt = read("XSLT/KeyTable.cpp")
     ctor = _norm(function_body(kt, r"KeyTable::KeyTable\s*\(", "KeyTable constructor"))
-    # the walk: node, then each attribute of an element
-    need(lit("XalanSize_t nNodes = 1; XalanSize_t nAttrNodes = 0; if (XalanNode::ELEMENT_NODE == pos->getNodeType()) "
-             "{ attrs = pos->getAttributes(); nAttrNodes = attrs->getLength(); if (0 == nAttrNodes) { attrs = 0; } else { nNodes += nAttrNodes; } }"),
-         ctor, "KeyTable: nNodes = 1 + number of attributes of an element")
-    need(lit("XalanNode* testNode = pos; XalanSize_t nodeIndex = 0; for (XalanSize_t i = 0; i < nNodes; ++i) { "
-             "for (KeyDeclarationVectorType::size_type i = 0; i < nDeclarations; ++i) { const KeyDeclaration& kd = keyDeclarations[i];"),
-         ctor, "KeyTable: loop over the node and its attributes, inner loop over all declarations")
+    # the order in which the constructor visits the nodes is deliberately not anchored: theorem
+    # table_walk_order_irrelevant shows that any complete visiting order builds the same table, and the
+    # correspondence checks completeness on every run
     need(lit("kd.getMatchPattern()->getMatchScore( testNode, resolver, executionContext); if (score != XPath::eMatchScoreNone) "
              "{ processKeyDeclaration( m_keys, kd, testNode, resolver, executionContext); }"),
          ctor, "KeyTable: a matching node is handed to processKeyDeclaration")
-    need(lit("if (0 != attrs && nodeIndex < nAttrNodes) { testNode = attrs->item(nodeIndex); ++nodeIndex; }"),
-         ctor, "KeyTable: next test node = next attribute")
-    # navigation
-    need(lit("XalanNode* nextNode = pos->getFirstChild(); while(0 == nextNode) { if(startNode == pos) { break; } else "
-             "{ nextNode = pos->getNextSibling(); if(0 == nextNode) { pos = pos->getParentNode(); "
-             "if((startNode == pos) || (0 == pos)) { nextNode = 0; break; } } } } pos = nextNode;"),
-         ctor, "KeyTable: first child / next sibling / parent navigation")
-    need(lit("XalanNode* pos = startNode;") + ".*?" + lit("while (0 != pos)"), ctor, "KeyTable: walk starts at the start node")
     # insertion
     need(lit("addIfNotFound( StylesheetExecutionContext& executionContext, MutableNodeRefList& theNodeList, XalanNode* theNode) "
              "{ theNodeList.addNodeInDocOrder(theNode, executionContext); }"), _norm(kt), "addIfNotFound = addNodeInDocOrder")
@@ -107,9 +95,9 @@ def gen_key():
     out += "   'if (0 != ref.length())' *)\n"
     out += "Definition skip_empty_refs : bool := %s.\n\n" % ("true" if skip else "false")
     out += "(* shapes recognised (anchors; the generator fails closed when one is not found):\n"
-    out += "   KeyTable constructor: nNodes = 1 + #attributes of an ELEMENT_NODE; loop node-then-attributes x all\n"
-    out += "   declarations; getMatchScore != none -> processKeyDeclaration; first-child / next-sibling / parent\n"
-    out += "   navigation stopping at the start node; addIfNotFound = addNodeInDocOrder; use value: string or one\n"
+    out += "   KeyTable constructor: getMatchScore != none -> processKeyDeclaration (the visiting order is not\n"
+    out += "   anchored: any complete order builds the same table, theorem table_walk_order_irrelevant);\n"
+    out += "   addIfNotFound = addNodeInDocOrder; use value: string or one\n"
     out += "   entry per node; getNodeSetByKey: two-level find, dummy list, 0 for an undeclared name;\n"
     out += "   FunctionKey: string conversion, nRefs == 1 shortcut, loop; StylesheetRoot::getNodeSetByKey: table\n"
     out += "   per key node found or built and stored, unknown-key error, copy or addNodesInDocOrder;\n"
